@@ -72,6 +72,8 @@ def ensure_facts(repo=REPO, target=None, verbose=True):
     th = tree_hash(repo)
     tag = "" if repo == "/repo" else "-" + hashlib.sha256(repo.encode()).hexdigest()[:8]
     fdir = os.path.join(CACHE, "facts", th + tag)
+    if os.path.exists(os.path.join(fdir, "OK")):
+        return fdir, False          # fast path: no lock needed
     lock = open(os.path.join(CACHE, "extract.lock"), "w")
     fcntl.flock(lock, fcntl.LOCK_EX)
     try:
@@ -173,7 +175,7 @@ class Body:
 
 
 class Facts:
-    def __init__(self, fdir):
+    def __init__(self, fdir, crates=None):
         self.dir = fdir
         self.bodies = {}      # path -> Body   (first wins; duplicates recorded)
         self.by_npath = {}    # generic-stripped path -> [Body]
@@ -187,6 +189,8 @@ class Facts:
         for f in sorted(glob.glob(os.path.join(fdir, "*.jsonl"))):
             base = os.path.basename(f).split(".")
             cname, ckind = base[0], base[1]
+            if crates is not None and cname not in crates:
+                continue
             if (cname, ckind) in seen_crates:
                 continue  # agdb_derive is built twice (host deps); identical
             seen_crates.add((cname, ckind))
@@ -247,6 +251,10 @@ class Facts:
         return h["matches"] if h else []
 
 
+def load_dir(fdir, crates=None):
+    return Facts(fdir, crates)
+
+
 def load(repo=REPO):
     fdir, fresh = ensure_facts(repo)
-    return Facts(fdir)
+    return load_dir(fdir)
